@@ -331,7 +331,10 @@ def cap_is_stream_property(ctx, rid):
             return "IDX"
         if isinstance(e, ast.Compare) and len(e.ops) == 1 and const(e.left, NO) == DELIM and isinstance(e.ops[0], (ast.In, ast.NotIn)):
             return "FOUND" if isinstance(e.ops[0], ast.In) else "NOTFOUND"
-        if isinstance(e, ast.Compare) and len(e.ops) == 1 and isinstance(const(e.comparators[0], NO), bytes) and const(e.comparators[0], NO) == b"\r\n" and isinstance(e.left, ast.Subscript):
+        if isinstance(e, ast.Compare) and len(e.ops) == 1 and isinstance(const(e.comparators[0], NO), bytes) and const(e.comparators[0], NO) == b"\r\n" and isinstance(e.left, ast.Subscript) \
+                and isinstance(e.ops[0], (ast.Eq, ast.NotEq)):
+            return "EMPTYBLOCK" if isinstance(e.ops[0], ast.Eq) else "NOTEMPTYBLOCK"
+        if isinstance(e, ast.Call) and isinstance(e.func, ast.Attribute) and e.func.attr == "startswith" and len(e.args) == 1 and const(e.args[0], NO) == b"\r\n":
             return "EMPTYBLOCK"
         if isinstance(e, ast.Call) and isinstance(e.func, ast.Name) and e.func.id == "len" and len(e.args) == 1:
             return "LEN"
@@ -342,7 +345,7 @@ def cap_is_stream_property(ctx, rid):
         return None
     loops = []
     for w in [x for x in walk_own(f.node) if isinstance(x, ast.While)]:
-        if any(isinstance(c, ast.Call) and isinstance(c.func, ast.Attribute) and c.func.attr == "find" and c.args and const(c.args[0], NO) == DELIM for c in ast.walk(w)):
+        if any(isinstance(c, ast.Constant) and c.value == DELIM for c in ast.walk(w)):
             reads = [nd for st in w.body for c in ast.walk(st) if is_read_call(repo, f, c) for nd in nodes_with(f, c)]
             if reads:
                 loops.append((w, reads))
@@ -366,7 +369,7 @@ def cap_is_stream_property(ctx, rid):
                 if l == "exc":
                     continue
                 env = dict(vals)
-                env.update({"LIMIT": CAP, "EMPTYBLOCK": False})
+                env.update({"LIMIT": CAP, "EMPTYBLOCK": False, "NOTEMPTYBLOCK": True})
                 outs = Explorer(f, atom_of=atom_of).run(b, env, watch={c.id: "cap" for c in caps}, stop=lambda x: x in reads or x in ph)
                 fired = [o for o in outs if "cap" in o.events]
                 quiet = [o for o in outs if "cap" not in o.events and o.kind != "raise"]      # (other raises: the read returned nothing)
